@@ -256,12 +256,14 @@ def check(prog: Program, tier: str) -> Result:
     _r19_8(prog, res)
     _r19_9(prog, res)
     _r19_10(prog, res)
+    _r19_11(prog, res)
+    _r19_12(prog, res)
     # a renamed binding is rewritten as ONE transaction (R19.3); that only keeps definition and uses together if the
     # scheduler applies a transaction wholly or not at all - decided by the C10 check, adopted here
     from . import c10 as _c10
     res.adopt(_c10.check(prog, tier), {"R10.1", "R10.3", "R10.6"}, "R19.3",
               "a rename is consistent only if its transaction is applied as a whole or not at all")
-    res.floors.update({"R19.1": 8, "R19.2": 4, "R19.3": 2, "R19.4": 1, "R19.5": 1, "R19.6": 1, "R19.7": 2, "R19.8": 6, "R19.9": 1, "R19.10": 1})
+    res.floors.update({"R19.1": 8, "R19.2": 4, "R19.3": 2, "R19.4": 1, "R19.5": 1, "R19.6": 1, "R19.7": 2, "R19.8": 6, "R19.9": 1, "R19.10": 1, "R19.11": 3, "R19.12": 1})
     res.analysed.update({"named_node_constructions_reaching_output": n_ctor, "guarded_name_generators": sorted(f"{a}.{b}" for a, b in gens)})
     return res
 
@@ -574,7 +576,8 @@ def _r19_2(prog: Program, res: Result) -> None:
         if not tests:
             res.bad("R19.2", fn.loc(), fn.fq, "blacklist applied", "new names are not tested against any collection of forbidden names")
             continue
-        site, coll = tests[0]
+        # several collections may be tested; the blacklist is the one made of the most tables of forbidden names
+        site, coll = max(tests, key=lambda sc: sum(key in _expand(prog, fn, sc[1]) for key in {**need, **extra}))
         t = _expand(prog, fn, coll)
         for key, what in {**need, **extra}.items():
             res.decide(key in t, "R19.2", fn.loc(site), fn.fq, f"blacklist contains {what}", "component present" if key in t else f"new names are not checked against {what}")
@@ -828,6 +831,154 @@ def _r19_10(prog: Program, res: Result) -> None:
         res.undecided("R19.10", fn.loc(), fn.fq, "exemption of shadowed names", "no exemption statement found")
 
 
+# ------------------------------------------------------------------------------------------------ R19.11 / R19.12
+SPELLING_KINDS = ("Name", "arg", "alias", "Global", "Nonlocal", "ExceptHandler", "MatchAs", "MatchStar", "MatchMapping")   # every node kind that spells a variable's name, def / class aside
+
+
+def _spelling_census(prog: Program, f: Func, depth: int = 0) -> Set[str]:
+    """Node kinds whose names a function takes a census of: isinstance tests against ast classes in f or in helpers it calls, provided
+    the function (or the helper) walks the whole tree (ast.walk)."""
+    kinds: Set[str] = set()
+    for n in ast.walk(f.node):
+        if isinstance(n, ast.Call) and norm(n.func) == "isinstance" and len(n.args) == 2:
+            for c in (n.args[1].elts if isinstance(n.args[1], ast.Tuple) else [n.args[1]]):
+                t = norm(c)
+                if t.startswith("ast."):
+                    kinds.add(t[4:])
+    if depth < 2:
+        for c in prog.calls_in(f):
+            r = prog.resolve_call(c.func, f.mod, f)
+            if r and r[0] == "fn" and r[1].mod.name == f.mod.name and r[1].key != f.key:
+                kinds |= _spelling_census(prog, r[1], depth + 1)
+    return kinds
+
+
+def _census_functions(prog: Program) -> Dict[Tuple[str, str], Func]:
+    """Functions that answer `which names are renamed in some places and still spelled in others`: they walk the whole tree, count
+    spellings (collections.Counter) and compare the counts."""
+    out = {}
+    for f in prog.funcs.values():
+        if f.mod.name != "fixes":
+            continue
+        text = norm(f.node)
+        if "ast.walk(" in text and text.count("collections.Counter(") >= 2 and any(isinstance(c, ast.Compare) and isinstance(c.ops[0], (ast.NotEq, ast.Eq)) for c in ast.walk(f.node)):
+            out[f.key] = f
+    return out
+
+
+def _r19_11(prog: Program, res: Result) -> None:
+    """One variable stays one variable.  The renaming rules collect the places of a variable through their own idea of scopes
+    (uses found by _get_uses_of, assignments found by iter_assignments).  Whatever that idea misses - a re-binding in an if,
+    a loop target, a read in a closure above the assignment, a lambda parameter or comprehension target of the same name -
+    stays behind under the old name, and the program then has two variables where it had one (or one where it had two).
+    Obligation: where renamings become rewrites, the old name was tested against the names that are renamed in some places
+    and still spelled in others - a census over the WHOLE tree of every node kind that spells a variable."""
+    from ..pathcond import PathAnalysis, plain
+    census = _census_functions(prog)
+    for key, f in census.items():
+        kinds = _spelling_census(prog, f)
+        missing = [k for k in SPELLING_KINDS if k not in kinds]
+        res.decide(not missing, "R19.11", f.loc(), f.fq, f"{f.node.name}() # census of the places that spell a name",
+                   f"counts {len(SPELLING_KINDS)} node kinds: {', '.join(SPELLING_KINDS)}" if not missing else
+                   f"the census does not count {missing}: a name that is left behind in such a place does not stop the renaming of the other places")
+    sites = (("fixes", "align_variable_names_with_convention", "yield"), ("fixes", "_fix_variable_names", "append"))
+    for m, q, how in sites:
+        fn = prog.funcs.get((m, q))
+        if fn is None:
+            raise AnalysisError(f"anchor {m}.{q} not found")
+        # locals that hold the answer of a census function
+        holders = set()
+        from ..defuse import bindings
+        for nm, defs in bindings(fn).items():
+            for _s, v in defs:
+                if v is None:
+                    continue
+                for c in ast.walk(v):
+                    if isinstance(c, ast.Call):
+                        r = prog.resolve_call(c.func, fn.mod, fn)
+                        if r and r[0] == "fn" and r[1].key in census:
+                            holders.add(nm)
+        if how == "yield":
+            points = [y for y in walk_own(fn.node) if isinstance(y, ast.Yield)]
+        else:
+            # the rewrites of Name nodes: `X.append((start, end, new))` reached under isinstance(node, ast.Name)
+            pa0 = PathAnalysis(prog, fn)
+            points = [c for c in prog.calls_in(fn) if isinstance(c.func, ast.Attribute) and c.func.attr == "append" and c.args
+                      and isinstance(c.args[0], ast.Tuple) and len(c.args[0].elts) == 3
+                      and (pa0.worlds_at(c) or None) and all(any(f_[0] == "lit" and f_[2] and "isinstance(" in plain(f_[1]) and "ast.Name" in plain(f_[1]) for f_ in w.facts)
+                                                                for w in pa0.worlds_at(c))]
+        if not points:
+            res.undecided("R19.11", fn.loc(), fn.fq, "places where renamings become rewrites", "none found")
+            continue
+        pa = PathAnalysis(prog, fn)
+        ok = bool(holders)
+        for p_ in points:
+            worlds = pa.worlds_at(p_)
+            # `old & X` / `old in X` false, or `old.isdisjoint(X)` true
+            good = bool(worlds) and all(any(f_[0] == "lit" and (f_[2] == ("isdisjoint(" in plain(f_[1]))) and any(_word_in(h, plain(f_[1])) for h in holders) for f_ in w.facts)
+                                        for w in worlds)
+            ok = ok and good
+        res.decide(ok, "R19.11", fn.loc(points[0]), fn.fq, "a name is renamed everywhere or nowhere",
+                   f"rewrites are reached only after the old name was tested against the names still spelled elsewhere ({sorted(holders)})" if ok else
+                   "renamings become rewrites without a test that no place spelling the old name is left behind: a re-binding in an `if`, a loop target, a read in "
+                   "a closure above the assignment, a lambda parameter keep the old name - one variable becomes two (`last_seen = None` / `for lastSeen in xs`)")
+
+
+def _word_in(word: str, text: str) -> bool:
+    import re as _re
+    return _re.search(rf"(?<![\w.]){_re.escape(word)}(?![\w])", text) is not None
+
+
+def _enclosing_if_chain(n: ast.AST) -> ast.AST:
+    a = parent(n)
+    last = n
+    while a is not None and not isinstance(a, (ast.FunctionDef, ast.AsyncFunctionDef, ast.For, ast.While)):
+        if isinstance(a, ast.If):
+            last = a
+        a = parent(a)
+    return last.test if isinstance(last, ast.If) else last
+
+
+def _r19_12(prog: Program, res: Result) -> None:
+    """Uses of a removed duplicate are redirected to the function that stays.  Where the NAME of that function is bound to
+    something else - a parameter, a local, a loop target of an enclosing function - the redirected use means that other
+    thing (capture).  Obligation: a redirection is recorded only when a search of the whole tree for other bindings of the
+    replacement's name (every spelling kind, reads aside) came back empty."""
+    from ..pathcond import PathAnalysis, plain
+    fn = prog.funcs.get(("fixes", "remove_duplicate_functions"))
+    if fn is None:
+        raise AnalysisError("anchor fixes.remove_duplicate_functions not found")
+    sites = [a for a in walk_own(fn.node) if isinstance(a, ast.Assign) and isinstance(a.targets[0], ast.Subscript) and isinstance(a.value, ast.Attribute)
+             and a.value.attr == "name" and isinstance(a.targets[0].slice, ast.Attribute) and a.targets[0].slice.attr == "name"]
+    if not sites:
+        res.undecided("R19.12", fn.loc(), fn.fq, "redirection of a duplicate's name", "site `renamings[<duplicate>.name] = <replacement>.name` not found")
+        return
+    pa = PathAnalysis(prog, fn)
+    for a in sites:
+        repl = norm(a.value)
+        worlds = pa.worlds_at(a)
+        def searched(f_) -> bool:
+            if not (f_[0] == "lit" and not f_[2]):
+                return False
+            t = plain(f_[1])
+            return t.startswith("any(") and repl in t and "ast.walk(" in t and ("ast.Load" in t or "ctx" in t)
+        ok = bool(worlds) and all(any(searched(f_) for f_ in w.facts) for w in worlds)
+        kinds_ok = True
+        if ok:
+            # the search uses a census of all spelling kinds
+            kinds = set()
+            for c in prog.calls_in(fn):
+                r = prog.resolve_call(c.func, fn.mod, fn)
+                if r and r[0] == "fn":
+                    kinds |= _spelling_census(prog, r[1], 1) if "ast." in norm(r[1].node) and len(r[1].posparams) == 1 else set()
+            kinds_ok = all(k in kinds for k in SPELLING_KINDS)
+        res.decide(ok and kinds_ok, "R19.12", fn.loc(a), fn.fq, f"{short(a, 60)} # uses of a duplicate are redirected",
+                   "only when the name of the function that stays is bound nowhere else in the module" if ok and kinds_ok else
+                   "the uses of a duplicate are redirected to the name of the function that stays without a search for other bindings of that name: inside "
+                   "`def apply_twice(increment, value)` the redirected `increment(..)` calls the parameter")
+
+
+
 def _r19_9(prog: Program, res: Result) -> None:
     """`global hitCount` / `nonlocal total` name a variable by a plain STRING, which no renaming touches.  Renaming the Name nodes of
     such a variable splits it: the module-level `HIT_COUNT`, `global hitCount` in the function, and the assignment there becomes a
@@ -905,6 +1056,12 @@ def _r19_7(prog: Program, res: Result) -> None:
 from ..selftest import Variant  # noqa: E402
 
 VARIANTS: List[Variant] = [
+    Variant("convention-renaming-without-the-census", "FIRE", "fixes", "        if old_names & names_left_alone:\n            continue  # One variable would become two, or two variables one\n", "", "R19.11"),
+    Variant("redirection-without-the-census", "FIRE", "fixes", "            if node.id != substitute and node.id not in preserve | names_left_alone:", "            if node.id != substitute and node.id not in preserve:", "R19.11"),
+    Variant("census-forgets-parameters", "FIRE", "fixes", "    if isinstance(node, ast.arg):\n        return [node.arg]\n    if isinstance(node, ast.alias):", "    if isinstance(node, ast.alias):", "R19.11"),
+    Variant("census-forgets-except-and-match-names", "FIRE", "fixes", "    if isinstance(node, (ast.ExceptHandler, ast.MatchAs, ast.MatchStar)):\n        return [node.name] if node.name else []\n", "", "R19.11"),
+    Variant("replacement-name-bound-elsewhere-not-searched", "FIRE", "fixes", "        if any(\n            replacement.name in _spelled_names(node)\n            for node in ast.walk(root)\n            if not (isinstance(node, ast.Name) and isinstance(node.ctx, ast.Load))\n        ):\n            continue  # Where its name is bound to something else, e.g. a parameter, a use means that\n", "", "R19.12"),
+    Variant("census-tested-by-set-difference", "SILENT", "fixes", "        if old_names & names_left_alone:\n            continue  # One variable would become two, or two variables one\n", "        if not old_names.isdisjoint(names_left_alone):\n            continue\n", "R19.11"),
     Variant("shadowing-exempts-the-store-node-only", "FIRE", "fixes",
             "        if name in tracing.get_defined_names(funcdef) | tracing.get_import_bound_names(funcdef):\n            blacklisted_names.update(core.walk(funcdef, ast.Name))\n",
             "        if any(core.walk(funcdef.args, ast.arg(arg=name))):\n            blacklisted_names.update(core.walk(funcdef, ast.Name))\n        for child in core.walk(funcdef, ast.Name(ctx=ast.Store, id=name)):\n            blacklisted_names.update(core.walk(child, ast.Name))\n", "R19.10"),
